@@ -18,10 +18,12 @@ def life_check(work, tier, seed, replay, propid, fam, rule):
         if p not in r["violated"]:
             raise Infra("%s: the wrong design must violate %s (non-vacuity): %s" % (cfg, p, r["violated"]))
         nonvac.append(dict(cfg=cfg, violated=r["violated"]))
+    # the same three properties proved for every set of fields and contents and behaviours of any length (TLAPS)
+    proved = common.tlaps(work, "Lifecycle_proofs") if not quick else None
     vh = common.build_vh(work)
     tr, stats = common.vh_gen(work, vh, fam, seed, tier)
     viol, nstates, lines = validate_traces(work, tr, procs=6 if quick else 12, module="Trace_Lifecycle", specname="spec/Lifecycle.tla")
-    cov = dict(states=sum(r["distinct"] for r in mcs), transitions=sum(r["generated"] for r in mcs), nonvacuity=nonvac,
+    cov = dict(tlaps_obligations_proved=proved, states=sum(r["distinct"] for r in mcs), transitions=sum(r["generated"] for r in mcs), nonvacuity=nonvac,
                traces_validated_against_impl=len(lines), trace_states=nstates, evaluations=stats["lines"],
                distinct=stats["distinct"], distinct_nontrivial=stats["distinct_nontrivial"], classes=stats["classes"], rule=rule,
                samples=[common.trim_sample(s, 1500) for s in stats["samples"][:3]])
